@@ -13,7 +13,8 @@ CHECKS = {
             "bounded symbolic execution of the real BpSeq/DotBracket code with CrossHair over every valid pairing table up to N "
             "positions (every path class is compared with an independent decoder), the converse direction over every balanced "
             "string on a restricted alphabet, all 30 bracket types through the real filling routine with symbolic levels, and every "
-            "optimal solution of the captured MILP computed by z3; holds for all inputs inside the stated bounds, says nothing outside",
+            "optimal solution of the captured MILP computed by z3; the solver-free encoders (FCFS, list of all encodings) also natively on every "
+            "pairing of 8-9 (thorough 10-11) positions enumerated by z3 AllSAT; holds for all inputs inside the stated bounds, says nothing outside",
             "trusts CrossHair's path exploration (cross-checked: number of path classes == independent count of the bounded space; "
             "every path re-executed natively), z3, the independent decoder in harness/pairing_lib.py; sequence letters concrete",
             "CrossHair symbolic execution (z3) of the real code, partitioned; captured MILP -> z3 LIA", "5/C01"),
@@ -34,7 +35,9 @@ CHECKS = {
     "C12": ("E1", MC,
             "one-operation inductive step: for every pairing table in the bound and each of the nine public operations, from a fresh object: "
             "answer == oracle, receiver unchanged, every later answer == fresh object's answer, operations on the returned structure do not reach "
-            "back; CrossHair-traced for N<=6/7, z3-AllSAT + native for larger N; explicit histories of bounded length as a cross-check of the argument",
+            "back, the returned structure answers like a fresh object built from its entries, another object with the same pairs and other letters "
+            "queried in between does not change the answers; CrossHair-traced for N<=6/7, z3-AllSAT + native for larger N; explicit histories of "
+            "bounded length as a cross-check of the argument",
             "trusts the invariant argument (warm object answers like a cold one => histories of any length), CrossHair, z3 AllSAT",
             "CrossHair symbolic execution of one inductive step; z3 AllSAT enumeration for larger bounds", "5/C12"),
     "C13": ("E3", "fault_enumeration",
@@ -81,13 +84,15 @@ CHECKS = {
             "the real find_stackings runs on z3 reals (two residues, symbolic unit normals, centroid offset d along a frame axis, symbolic "
             "atom spread and translation, optional leading non-nucleotide residue); per explored path the obligations 'listed and outside the "
             "definition by margin' / 'not listed and inside by margin' / topology vs sign of the normals' dot product / lower residue first are "
-            "decided by z3 NRA (unsat) for every geometry of the stated form",
+            "decided by z3 NRA (unsat) for every geometry of the stated form; one configuration is preceded by a call on residues with the same "
+            "identities and a distant partner (state kept between calls)",
             "KD-tree replaced by an exact stub; base normals injected; reals stand in for doubles with a 1e-6 band; centroid offset axis-aligned only; "
             "trusts z3 (two builds raced)",
             "symbolic execution of the real code on z3-real proxies (own engine), NRA obligations", "5/C04"),
     "C17": ("E2", MC,
             "the real find_clashes runs on symbolic geometry (2-3 atoms on a line with symbolic gaps), symbolic occupancies (or None), symbolic "
-            "options (all 32) and is_nucleotide flags; obligations in margin form against the pairwise van-der-Waals definition; the real main() runs "
+            "options (all 32) and is_nucleotide flags, residues in ascending or descending order or differing by insertion code only; obligations in "
+            "margin form against the pairwise van-der-Waals definition, every listed atom belongs to the residue it is listed with; the real main() runs "
             "with its environment stubbed and up to 3 listed clashes with symbolic occupancy sums: printed maxima and CSV rows are compared with the "
             "listed clashes by z3",
             "KD-tree = exact stub honouring the radius the code passes; argparse/open/print/read_metadata/read_3d_structure stubbed in main(); "
@@ -96,7 +101,9 @@ CHECKS = {
     "C18": ("E2", MC,
             "both torsion implementations, torsion_angle and Residue3D.chi/chi_class run on z3 reals for points constructed with a prescribed "
             "dihedral (6 free reals + translation); atan2 is never evaluated: the obligation (Y,X) = k(sin phi, cos phi), k>0 is decided by z3 NRA "
-            "per explored path; agreement of the two implementations, reversal and mirroring (thorough) likewise",
+            "per explored path; agreement of the two implementations, reversal and mirroring (thorough) likewise; the torsion table of the second "
+            "implementation on every window of 3 (thorough 2-4) residues of 1EHZ, with and without an alternate-location copy, against an "
+            "independent dihedral (concretising mode)",
             "claim per frame: canonical frame (quick), the 6 signed axis permutations (thorough); dense rotations do not finish and are not "
             "claimed; reals for doubles; known finding: tertiary_v2 returns the negated dihedral (pinned by the test-suite)",
             "symbolic execution on z3-real proxies (own engine); NRA obligations raced on z3 5.1.0 / 4.8.12", "5/C18"),
@@ -142,7 +149,8 @@ CHECKS = {
             "copy_from_to / replace_value run on real mmcif DataContainer/DataCategory objects whose cells are bounded symbolic strings (adapter "
             "stubbed); per explored equality pattern z3 decides that only the target item changed, target == source (copy) or the first-seen "
             "injective image equal to the returned mapping (replace), absent category/source leaves the text untouched, also after earlier "
-            "edits of the same content; main() runs on a fake file system against the library result for the file's content",
+            "edits of the same content; main() runs on a fake file system (truncate on open-for-write, lazy reads), also in place, against the "
+            "library result for the file's content",
             "data-model level: the mmcif tokenizer/writer are outside; at most as many distinct values as substitution characters",
             "symbolic execution on bounded-string proxies (own engine) + z3", "5/C20"),
     "C16": ("E1+E3", MC,
